@@ -13,7 +13,7 @@ RULE = ("worlds from dsim.world (1-8 stations, chains of sessions per station wi
         "shared 'hot' timestamps, extra recompute events, all parties); non-trivial = run with >=1 back-to-back "
         "station reuse or >=1 period with >=3 events; distinct = distinct per-period history signature "
         "<event kinds, invoked?, fault, #connected, #charging>")
-PROBES = ["can_receive_current_checked", "back_to_back", "pileup3", "recompute_only_period", "resumed", "stay1", "idle_prefix", "crash_last_period",
+PROBES = ["deepcopy_branch_run", "can_receive_current_checked", "back_to_back", "pileup3", "recompute_only_period", "resumed", "stay1", "idle_prefix", "crash_last_period",
           "constraint_free_sorted", "custom_event_in_run", "resume_json", "stochastic_network_world", "stochastic_json_resume", "second_life", "duplicate_session_id_world"]
 FAULT_DIMENSION = "scheduler crash at arbitrary calls (incl. last period), resumed by rerun or via a JSON save/load of the simulator"
 ASSUMPTIONS = ["sessions of one station do not overlap (generator guarantees it)",
@@ -21,7 +21,7 @@ ASSUMPTIONS = ["sessions of one station do not overlap (generator guarantees it)
                "tie order inside one (timestamp, precedence) class is not constrained"]
 PREC = {"Unplug": 0, "Plugin": 1, "Recompute": 2, "Event": 3}
 
-PROFILE = world.profile(zero_demand=0.05, second_life=0.15, stations=(1, 8), faults={"crash": 0.5}, resume_modes=["rerun", "rerun", "json_str", "json_file"], custom_events=0.2,
+PROFILE = world.profile(zero_demand=0.05, second_life=0.15, stations=(1, 8), faults={"crash": 0.5}, resume_modes=["rerun", "rerun", "json_str", "json_file", "deepcopy_branch"], custom_events=0.2,
                         party={"scripted": 4, "uncontrolled": 2, "greedy": 2, "rr": 1})
 
 
@@ -155,6 +155,29 @@ def check(sc):
             for i, st in enumerate(ids):
                 if p["rates"][i] != 0 and p["st"][st][0] is None:
                     out.add("C01/rate_without_ev", "t=%d station %s rate %r" % (t, st, p["rates"][i]))
+    # what-if branches: a deep copy of the interrupted simulator, run to completion on its own after the original finished.
+    # It is a simulation of the same sessions, so the same clauses hold for it - and running it must not touch the original
+    for b_ in getattr(tr, "branches", []):
+        out.probe("deepcopy_branch_run")
+        if "exc" not in b_:
+            continue
+        if b_["exc"] is not None:
+            out.add("C01/branch_exception", "deep copy taken at period %d: run() raised %s: %s" % (b_["t"], type(b_["exc"]).__name__, str(b_["exc"])[:120]))
+            break
+        if b_["orig_hist_after"] != b_["orig_hist_before"]:
+            out.add("C01/branch_touched_original", "running a deep copy (taken at period %d) changed the original's event history: %d -> %d entries"
+                    % (b_["t"], b_["orig_hist_before"], b_["orig_hist_after"]))
+            break
+        bs = b_["sim"]
+        bh = [(e.timestamp, e.event_type or "Event", getattr(getattr(e, "ev", None), "session_id", None)) for e in bs.event_history]
+        if sorted(bh, key=lambda x: (x[0], x[1], str(x[2]))) != sorted(want, key=lambda x: (x[0], x[1], str(x[2]))):
+            out.add("C01/branch_history", "deep copy taken at period %d and run to the end: its event history %s differs from the scenario's events %s"
+                    % (b_["t"], bh[:10], want[:10]))
+            break
+        if not bs.event_queue.empty() or bs.iteration != last_t + 1 or any(bs.network.get_ev(x) is not None for x in bs.network.station_ids):
+            out.add("C01/branch_end_state", "deep copy taken at period %d: queue empty %s, iteration %d (expected %d)"
+                    % (b_["t"], bs.event_queue.empty(), bs.iteration, last_t + 1))
+            break
     # what the party saw agrees with the model
     for c in tr.calls:
         if not c.get("completed") or "sessions" not in c:
